@@ -9,7 +9,7 @@ from sa.spec import avro_wire as spec
 from .common import ifexp_alternatives, analysis, tokens
 
 PROP = "C05"
-TECHNIQUE = "constant folding of the header constants; wire-shape extraction of dump / write_block / block codecs / block generators against the spec's container grammar; CFG ordering of offset/size bookkeeping"
+TECHNIQUE = "constant folding of the header constants; wire-shape extraction of dump / write_block / block codecs / block generators against the spec's container grammar; per-path summaries (reaching definitions with expression propagation) for codec payloads and is_avro; CFG ordering of offset/size bookkeeping"
 LEVEL_TEXT = (
     "Static analysis: MAGIC, SYNC_SIZE and HEADER_SCHEMA are folded from the one definition both sides import and compared with "
     "the specification; the token terms of dump, write_block, the seven block writers, the seven block readers and both block "
